@@ -84,6 +84,8 @@ def worker(args):
         # shrink every bucket found by this shard
         for bucket, ent in res.failures.items():
             t0 = time.monotonic()
+            if ent.get("no_shrink"):
+                continue  # step-budget verdicts: every shrink attempt would cost minutes
             ent["case"] = core.shrink_case(sub, tier, seed, shard, nshards, bucket, ent["case"], ent.get("label"), shrink_budget, scale)
             tmp = ShardResult()
             core.evaluate(sub, ent["case"], tmp)
